@@ -2,8 +2,8 @@
    A script is fault-free when every scripted action has [ha_fault = FNone]. *)
 From Coq Require Import List NArith Bool Arith.
 From AMV Require Import Base.ListSet Model.Schema Model.Resolver Model.Machine
-  Spec.C01 Spec.C14.
-From AMV Require Proofs.C03C14Proofs.
+  Spec.C01 Spec.C14 Spec.C14f.
+From AMV Require Proofs.C03C14Proofs Proofs.C14fProofs.
 Import ListNotations.
 
 (* (f) the tracer events of one fault-free transition that did not crash:
@@ -104,3 +104,22 @@ Theorem c14_codes_run_fuel_refuted :
     c14_codes (run fuel (init_st sch tp hl ex bs ql acts) cs) [] = [142%N].
 Proof. exact C03C14Proofs.c14_codes_run_fuel_refuted_lemma. Qed.
 Print Assumptions c14_codes_run_fuel_refuted.
+
+(* the predicate the check evaluates on observed traces is fault-aware
+   (Spec/C14f.v: the time clauses and the Finals flag are judged "for
+   transitions without handler faults", the bracket clause always); on a
+   fault-free script it is c14_codes, so the theorems above speak about it *)
+Theorem c14f_conservative :
+  forall acts tr extra,
+    forallb (fun a => match ha_fault a with FNone => true | _ => false end) acts = true ->
+    c14f_codes acts tr extra = c14_codes tr extra.
+Proof. exact C14fProofs.c14f_conservative_lemma. Qed.
+Print Assumptions c14f_conservative.
+
+(* ... and no fault exempts a transition from Init/Start/End once, in order *)
+Theorem c14f_missing_end_flagged :
+  forall acts tr extra,
+    tr_crashed tr = false -> brackets BIdle (tr_evs tr) [] = None ->
+    In 141%N (c14f_codes acts tr extra).
+Proof. exact C14fProofs.c14f_missing_end_lemma. Qed.
+Print Assumptions c14f_missing_end_flagged.
